@@ -76,6 +76,8 @@ V4_ACK = {'enable': 'enable-ack', 'disable': 'disable-ack', 'silence': 'silence-
 
 
 def matches(d: dict, nb: dict) -> bool:
+    if nb.get('svc', 'h1') != 'h1':
+        return False  # the neighbor is served by another helper process: nothing the first one writes selects it
     if d['ip'] != '*' and d['ip'] != nb['peer_ip']:
         return False
     vals = {'peer-as': str(nb['peer_as']), 'local-as': str(nb['local_as']), 'router-id': nb['router_id'], 'local-ip': local_of(nb)}
@@ -87,7 +89,7 @@ def matches(d: dict, nb: dict) -> bool:
 
 def selected(sel, nbrs) -> list[int]:
     if sel == '*':
-        return [nb['idx'] for nb in nbrs]
+        return [nb['idx'] for nb in nbrs if nb.get('svc', 'h1') == 'h1']
     defs = sel if isinstance(sel, list) else [sel]
     return [nb['idx'] for nb in nbrs if any(matches(d, nb) for d in defs)]
 
@@ -123,6 +125,10 @@ def generate(rng, tier: str, index: int) -> dict:
     for i in range(nn):
         ip = addrs[i] if addrs else (RW.PEER_IPS[i] if i < 3 else '10.0.0.5')
         nbrs.append({'idx': i, 'peer_ip': ip, 'peer_as': 65100 + i, 'local_as': rng.choice([65001, 65011]), 'router_id': f'10.0.1.{i + 1}', 'addpath': False})
+    if rng.chance(0.35):
+        # the last neighbor belongs to a second helper process (`api { processes [ h2 ]; }`) that stays silent: whatever the
+        # first helper writes - `peer *`, a selector naming it, a group - must leave it alone
+        nbrs[-1]['svc'] = 'h2'
     variants = RW.gen_variants(rng, 3)
     prefixes = rng.sample(RW.API_PREFIXES, 4)
     cmds = []
@@ -252,7 +258,7 @@ def build_commands(plan: dict):
                     out.append({'text': p_, 'expect': None, 'effects': [], 'acked': acked, 'k': 'mgroup-member'})
                 text = 'group end'
                 expect = None if has_bad else 'done'
-                effects = [(nb['idx'], s['op'], s['route']) for s in good for nb in nbrs]
+                effects = [(nb['idx'], s['op'], s['route']) for s in good for nb in nbrs if nb.get('svc', 'h1') == 'h1']
                 out.append({'text': text, 'expect': expect, 'effects': effects, 'acked': acked, 'k': 'mgroup-end'})
                 continue
             text = f'peer {sel_text(c["sel"])} group ' + ' ; '.join(parts)
@@ -286,10 +292,10 @@ def execute(plan: dict) -> dict:
         confs.append(
             {
                 'peer_ip': nb['peer_ip'], 'local_ip': local_of(nb), 'local_as': nb['local_as'], 'peer_as': nb['peer_as'], 'router_id': nb['router_id'], 'hold': 90,
-                'families': [(1, 1)], 'adj-rib-out': True, 'api': {'processes': ['h1']},
+                'families': [(1, 1)], 'adj-rib-out': True, 'api': {'processes': [nb.get('svc', 'h1')]},
             }
         )  # fmt: skip
-    w.boot(config_text([{'name': 'h1'}], confs))
+    w.boot(config_text([{'name': 'h1'}] + ([{'name': 'h2'}] if any(nb.get('svc') == 'h2' for nb in nbrs) else []), confs))
     h = w.procs.helper('h1')
     h.chunk_plan = list(plan['chunks'])
     cmds = build_commands(plan)
@@ -388,6 +394,11 @@ def execute(plan: dict) -> dict:
                 continue
             rep = RW.reported_table(peer.neighbor, False)
             stale = [RW.fmt_key(k) for k in rep if k[3].startswith('10.79.')]
+            if nb.get('svc', 'h1') != 'h1':
+                if rep:
+                    violations.append(viol('C14/rib-side-effect', f'neighbor {nb["peer_ip"]} is served by the helper h2 only and holds {[RW.fmt_key(k) for k in rep][:3]} after commands of h1', neighbor=nb['idx']))
+                    return
+                continue
             if stale or RW.key_of('10.80.0.0/24', None, False) not in rep:
                 violations.append(viol('C14/rib-side-effect', f'neighbor {nb["peer_ip"]} after the respawn: commands of the dead instance applied {stale}, 10.80.0.0/24 present: {RW.key_of("10.80.0.0/24", None, False) in rep}', neighbor=nb['idx']))
                 return
